@@ -2,22 +2,26 @@
 # dev helper: prepare an instrumented scratch under /var/tmp/dev and build the worker binary
 set -e
 export GOFLAGS=-mod=mod GOPROXY=off GOSUMDB=off GOTOOLCHAIN=local
-D=/var/tmp/dev
+V=${VERIF_SRC:-/verif}
+D=${DEVDIR:-/var/tmp/dev}
 PROFILE=${1:-client}
 mkdir -p $D
 if [ ! -d $D/repo-$PROFILE ] || [ -n "$REINSTR" ]; then
   rm -rf $D/repo-$PROFILE; mkdir -p $D/repo-$PROFILE
+  if [ -n "$REPO_HEAD" ]; then (cd /repo && git archive HEAD | tar -x -C $D/repo-$PROFILE); else
   (cd /repo && git ls-files -z | rsync -a --files-from=- --from0 . $D/repo-$PROFILE/)
+  fi
+  if [ -n "$PATCH" ]; then (cd $D/repo-$PROFILE && patch -p1 -s < $PATCH); fi
   if [ $PROFILE = client ]; then
-    /verif/bin/vinstr -root $D/repo-$PROFILE -maponly primitive,message,datatype,frame,segment,datacodec,compression/lz4,compression/snappy,crc -yield client -shim
+    $V/bin/vinstr -root $D/repo-$PROFILE -maponly primitive,message,datatype,frame,segment,datacodec,compression/lz4,compression/snappy,crc -yield client -shim
   else
-    /verif/bin/vinstr -root $D/repo-$PROFILE -maponly client -yield primitive,message,datatype,frame,segment,datacodec,compression/lz4,compression/snappy,crc -shim
+    $V/bin/vinstr -root $D/repo-$PROFILE -maponly client -yield primitive,message,datatype,frame,segment,datacodec,compression/lz4,compression/snappy,crc -shim
   fi
   (cd $D/repo-$PROFILE && sed -i 's/^go 1.17$/go 1.21/' go.mod && printf '\nrequire verif/simrt v0.0.0\nreplace verif/simrt => ../simrt\n' >> go.mod)
 fi
 rm -rf $D/repo; ln -s $D/repo-$PROFILE $D/repo
-rsync -a --delete /verif/simrt/ $D/simrt/
-rsync -a --delete /verif/harness/ $D/harness/
-cat /repo/go.sum /verif/harness/go.sum.extra > $D/harness/go.sum
+rsync -a --delete $V/simrt/ $D/simrt/
+rsync -a --delete $V/harness/ $D/harness/
+cat /repo/go.sum $V/harness/go.sum.extra > $D/harness/go.sum
 cd $D/harness && go1.26.8 test -tags verif -c -o $D/worker-$PROFILE.test ./sim
 echo built $D/worker-$PROFILE.test
